@@ -65,6 +65,13 @@ def run(ctx):
         if i in (7, n // 2, n - 1):
             ctx.sample(c)
 
+    def corrupt_case(c):
+        if c["kind"] == "tag" and c["res"]["ok"]:
+            c["res"]["tag"][0] = (c["res"]["tag"][0] + 1) % 65536
+            return True
+        return False
+    V.selftest_replay(ctx, "drv_tagtext", lambda p: ["replay", "--cases", p], cases, corrupt_case, "an expected tag with group+1")
+
     # B
     kwfile = ctx.path("keywords.ndjson")
     rows = V.dictionary_table(kwfile)
@@ -87,3 +94,10 @@ def run(ctx):
         return False
     V.selftest_corrupt(ctx, "Trace_TagText", rep2["trace"], corrupt, "a recorded tag with element+1")
     ctx.exhaustive = False
+
+
+def replay(ctx, obj):
+    """bin/check C14 --replay <file>: re-execute one recorded violation alone"""
+    ctx.level = "model_checking"
+    ctx.rule = "replay of one recorded violation"
+    V.replay_file(ctx, "drv_tagtext", lambda c: ["replay", "--cases", c], "Trace_TagText", ("tag", "show", "sel", "selparse"), fp_trace)
